@@ -38,7 +38,7 @@ CLAIMS = {
              text="8 scale slots x method/degree/grid/N/M/DAE/horizon at <=3/<=4 deviations plus every slot x method x M x DAE: objective equal, user rows and bounds divided by the scale, dynamics rows up to a positive constant, each decision coordinate moves its physical read-back by exactly its scale, starting point equals the guesses in physical units.",
              design="DESIGN.md 5 (C14)"),
 
- "C12": dict(technique="exhaustive enumeration of stage lists (length <=3) x coupling patterns x declaration patterns (direct / cloned / edited clones) on the real rockit, compared with the disjoint union of the stages' reference transcriptions (and, for SplineMethod stages, of the stages' own real NLPs) plus coupling rows",
+ "C12": dict(technique="exhaustive enumeration of stage lists (length <=3) x coupling patterns x declaration patterns (direct / cloned / edited clones) on the real rockit, compared with the disjoint union of the stages' reference transcriptions (and, for SplineMethod stages, of the stages' own real NLPs) plus coupling rows; per-stage numeric read-back sol(stage) through a solver-free solution object",
              text="Every stage list of length <=3 over a 7-stage alphabet x 7 coupling patterns x 4 declaration patterns, and every method list over {Spline, MS, DC} containing Spline: the multi-stage NLP is the disjoint union of the stages' NLPs plus the parent's coupling rows, the objective is the sum, clones equal direct declarations with overridden t0/T, siblings are independent, templates keep their declared state.",
              design="DESIGN.md 5 (C12)"),
  "C18": dict(technique="deviation-bounded exhaustive enumeration of feature programs x save positions (a short history dimension) on the real rockit under a solver spy; loaded vs original vs fresh object",
@@ -57,7 +57,7 @@ CLAIMS = {
  "C16": dict(technique="exhaustive enumeration of expression ASTs (bounded depth) x ODE models x generic points against a forward-mode dual-number interpreter; enumeration of control orders x methods for the derivative chain; B-spline signal derivatives against the analytic spline derivative",
              text="Every AST up to depth 2/3 over {x_i, y, t, global parameter, global variable} x 5 models x 3 points: der(e) equals the dual-number derivative along (rhs,1); control orders 1..4 x methods: chain structure, der^(k+1) raises, Taylor identities at a feasible point; der/der(der) of spline parameters vs scipy.",
              design="DESIGN.md 4 (C16)"),
- "C17": dict(technique="exhaustive enumeration of (order x N x grid x refinement) for the basis matrices against an independent Cox-de Boor (entry-wise, so all coefficient vectors are decided), of signal programs x methods, and of integrator-chain systems under SplineMethod (Taylor identities, row multisets, agreement with MultipleShooting, inf-constraint soundness by boundary search)",
+ "C17": dict(technique="exhaustive enumeration of (order x N x grid x refinement) for the basis matrices against an independent Cox-de Boor (entry-wise, so all coefficient vectors are decided), of signal programs x methods, and of integrator-chain systems and linear non-chain models under SplineMethod (refused or exact; Taylor identities, row multisets, agreement with MultipleShooting, inf-constraint soundness by boundary search)",
              text="Order 0..4 x N<=8 x 3 grids x refinements 1..5: eval_on_knots / Greville / bspline_derivative equal scipy's clamped B-splines; B-spline parameters and variables in real OCPs (SplineMethod, MS, DC) are sampled as those splines, gist coefficients sit at Greville points; SplineMethod chain dynamics hold as exact Taylor identities, path rows sit at every refined point, MS's gaps vanish at the sampled spline trajectory, grid='inf' rows are sound.",
              design="DESIGN.md 4 (C17)"),
 
@@ -67,7 +67,7 @@ CLAIMS = {
  "C08": dict(technique="deviation-bounded exhaustive enumeration of method configurations x models; all clauses of the statement evaluated at dynamically feasible points of the real NLP found by Newton on its enumerated rows",
              text="Method/intg/degree/scheme/N/M/grid/model at <=2/<=3 deviations plus every scheme x M x grid x 4 models: thinning refine->integrator->control (r=1..7), equal subdivisions, one polynomial of the scheme's degree per step incl. its end state, slopes = rhs (start / collocation times, through helper states), exactness on polynomial solutions, sampler(gist,t) = that polynomial on a lattice of query times.",
              design="DESIGN.md 4 (C08)"),
- "C19": dict(technique="exhaustive enumeration of ordered argument lists x argument value alphabets x methods x solver budgets; to_function output compared with a fresh imperative pipeline on the real rockit",
+ "C19": dict(technique="exhaustive enumeration of ordered argument lists x argument value alphabets x methods x solver budgets; to_function output compared with a fresh imperative pipeline on the real rockit; the starting point of a second pipeline run on the same Ocp compared with a fresh Ocp's",
              text="Every ordered argument list of length <=2/<=3 over 6 argument kinds x 3^k values x 5 method configurations x {converge, zero iterations}: all outputs of F equal set_value/set_initial/solve/sample on a fresh OCP (the zero-iteration budget decides the initial-guess arguments).",
              design="DESIGN.md 6 (C19)", note="ipopt deterministic for a fixed NLP and start point; strictly convex alphabet so converged outputs do not depend on the guess."),
 }
